@@ -583,12 +583,7 @@ impl Direct {
         }
         let fe = op.fe().unwrap_or(Fe::Std);
         let r = match fe {
-            Fe::Uring
-                if matches!(
-                    op,
-                    Op::WriteAt { .. } | Op::ReadAt { .. } | Op::SyncAll { .. } | Op::SyncData { .. }
-                ) =>
-            {
+            Fe::Uring if op.uring_capable() => {
                 self.uring_ops += 1;
                 self.exec_uring(op)
             }
@@ -632,6 +627,8 @@ impl Direct {
             Op::WriteAt { p, off, n, key, .. } => (p, "w", K::Write(*off, payload(*key, *n))),
             Op::ReadAt { p, off, n, .. } => (p, "r", K::Read(*off, *n)),
             Op::SyncAll { p, .. } | Op::SyncData { p, .. } => (p, "w", K::Fsync),
+            // fsync through a read-only descriptor
+            Op::Handle { p, .. } => (p, "r", K::Fsync),
             _ => unreachable!(),
         };
         // phase 1: open, ring, push, submit
@@ -703,6 +700,7 @@ impl Direct {
                 rbuf.truncate(k);
                 Ret::Ok(Val::Bytes(rbuf))
             }
+            Op::Handle { .. } => Ret::Ok(Val::Steps(vec![Ret::Ok(Val::Unit)])),
             _ => Ret::Ok(Val::Unit),
         }
     }
